@@ -37,8 +37,9 @@ struct Outcome { std::string vio_sig, vio_detail; std::vector<Op> enabled; uint6
 static Outcome execute(const std::vector<Op>& hist, bool epilogue) {
     Outcome out;
     asio::io_context ioc;
-    auto mtx = std::make_unique<async_mutex>(ioc.get_executor());
+    // the signals must outlive the mutex: ~async_mutex clears the slots of the waiters it still holds
     std::vector<Req> reqs; std::vector<std::unique_ptr<asio::cancellation_signal>> sigs;
+    auto mtx = std::make_unique<async_mutex>(ioc.get_executor());
     int holder = -1;             // model: request that owns the lock (GRANTED or NOTIFIED)
     int cancels = 0; bool destroyed = false; bool in_lock_call = false; int ready = 0;
     std::vector<int> success_order;
@@ -122,11 +123,14 @@ static std::string hist_json(const std::vector<Op>& h) {
     return s + "]}";
 }
 
+static std::string hist_json(const std::vector<Op>& h);
 struct Stats { uint64_t histories = 0, ops = 0, nontrivial = 0; };
 static rep::Report R;
 static std::unordered_set<uint64_t> g_states;
 
+static char* g_cur = nullptr;   // shared slot: the history this worker is executing (attributes a crash)
 static void dfs(std::vector<Op>& hist, int depth, Stats& st) {
+    if (g_cur) { std::string h = hist_json(hist); strncpy(g_cur, h.c_str(), 255); }
     Outcome o = execute(hist, true);
     st.histories++; st.ops += hist.size();
     if (o.any_waited && o.any_cancel) st.nontrivial++;
@@ -157,30 +161,41 @@ int main(int argc, char** argv) {
     { std::vector<Op> h; Outcome o0 = execute(h, false);
       for (auto& a : o0.enabled) { h = {a}; Outcome o1 = execute(h, false); if (o1.enabled.empty() || depth < 2) { prefixes.push_back(h); continue; }
         for (auto& b : o1.enabled) { prefixes.push_back({a, b}); } } }
-    struct Sh { volatile uint64_t histories, ops, nontrivial, states; volatile int next; };
+    struct Sh { volatile uint64_t histories, ops, nontrivial, states; volatile int next; char cur[64][256]; };
     Sh* sh = (Sh*)mmap(nullptr, sizeof(Sh), PROT_READ | PROT_WRITE, MAP_SHARED | MAP_ANONYMOUS, -1, 0);
     std::string tmpl = std::string(out ? out : "/dev/null") + ".w";
-    std::vector<pid_t> pids;
-    for (int w = 0; w < workers; ++w) {
+    std::vector<pid_t> pids(workers, 0); int report_seq = 0; std::vector<std::string> report_files;
+    auto spawn = [&](int w) {
+        std::string rf = tmpl + std::to_string(report_seq++); report_files.push_back(rf);
         pid_t pid = fork();
         if (pid == 0) {
+            g_cur = sh->cur[w % 64]; g_cur[0] = 0;
             Stats st;
-            for (;;) { int k = __sync_fetch_and_add(&sh->next, 1); if (k >= int(prefixes.size())) break; auto h = prefixes[k]; dfs(h, depth, st); }
-            __sync_fetch_and_add(&sh->histories, st.histories); __sync_fetch_and_add(&sh->ops, st.ops); __sync_fetch_and_add(&sh->nontrivial, st.nontrivial);
+            for (;;) { int k = __sync_fetch_and_add(&sh->next, 1); if (k >= int(prefixes.size())) break; auto h = prefixes[k]; dfs(h, depth, st);
+                // flush statistics per prefix so that a later crash of this worker does not lose them
+                __sync_fetch_and_add(&sh->histories, st.histories); __sync_fetch_and_add(&sh->ops, st.ops); __sync_fetch_and_add(&sh->nontrivial, st.nontrivial); st = Stats(); R.write(rf.c_str()); }
             __sync_fetch_and_add(&sh->states, g_states.size());
-            R.write((tmpl + std::to_string(w)).c_str());
+            R.write(rf.c_str());
             _exit(0);
         }
-        pids.push_back(pid);
+        pids[w] = pid;
+    };
+    for (int w = 0; w < workers; ++w) spawn(w);
+    bool worker_died = false; int deaths = 0;
+    for (int alive = workers; alive > 0;) {
+        int st; pid_t p = wait(&st); if (p < 0) break; int w = -1; for (int i = 0; i < workers; ++i) if (pids[i] == p) w = i; if (w < 0) continue;
+        if (WIFEXITED(st) && WEXITSTATUS(st) == 0) { alive--; continue; }
+        // a crash / abort inside a history is a failure of the property (every waiter must be resolved), attributed to that history
+        std::string h = sh->cur[w % 64]; if (h.empty()) { worker_died = true; alive--; continue; }
+        R.violation("C11:process-death", "the process died (status " + std::to_string(st) + ") while replaying this lock history", h);
+        if (++deaths < 200 && sh->next < int(prefixes.size())) spawn(w); else alive--;
     }
-    bool worker_died = false;
-    for (auto p : pids) { int st; waitpid(p, &st, 0); if (!WIFEXITED(st) || WEXITSTATUS(st) != 0) worker_died = true; }
     // the short histories (length 0 and 1) are covered here
     { Stats st; std::vector<Op> h; Outcome o = execute(h, true); st.histories++; for (auto& a : execute(h, false).enabled) { h = {a}; Outcome o1 = execute(h, true); st.histories++; st.ops++; if (!o1.vio_sig.empty()) R.violation(o1.vio_sig, o1.vio_detail, hist_json(h)); }
       sh->histories += st.histories; sh->ops += st.ops; (void)o; }
     // merge worker reports (violations + samples) textually: workers wrote full reports; parse minimal parts
-    for (int w = 0; w < workers; ++w) {
-        std::string path = tmpl + std::to_string(w); FILE* f = fopen(path.c_str(), "r"); if (!f) continue;
+    for (auto& path : report_files) {
+        FILE* f = fopen(path.c_str(), "r"); if (!f) continue;
         std::string s; char buf[4096]; size_t n; while ((n = fread(buf, 1, sizeof buf, f)) > 0) s.append(buf, n); fclose(f); unlink(path.c_str());
         // extract "violations":[ ... ] objects crudely: look for {"sig":"...","detail":"...","count":N,"replay":{...}}
         size_t p = 0;
